@@ -159,6 +159,8 @@ class WhileInductive:
     variant(<locals>) must be non-negative when the body is entered and smaller after a completed iteration
     (termination)."""
 
+    opt_in = True
+
     def __init__(self, inv, modifies, variant=None):
         self.inv, self.modifies, self.variant = inv, list(modifies), variant
         self.params = list(inspect.signature(inv).parameters)
